@@ -6,7 +6,7 @@ From Coq Require Import String List Bool Arith ZArith.
 Require Import OV.Graph.Syntax OV.Graph.Sem OV.Graph.Wf.
 Require Import OV.Builder.Strings OV.Builder.Modules OV.Builder.ModulesProofs.
 Require Import OV.Builder.Naming OV.Builder.NamingProofs OV.Builder.Trace OV.Builder.TraceProofs.
-Require Import OV.Builder.TraceCF OV.Builder.TraceCFProofs.
+Require Import OV.Builder.TraceCF OV.Builder.TraceCFProofs OV.Builder.TraceNames OV.Builder.TraceNamesProofs.
 Import ListNotations.
 Local Open Scope string_scope.
 
@@ -235,3 +235,42 @@ Example C18_build_computes_trace_cf_instance :
              (init_env Z zlit (b_cache (fst (build_state bcfg_fixed ["x"; "c"] ex_cf_trace))))
              (build bcfg_fixed ["x"; "c"] ex_cf_trace [15; 14; 5]) [5; 1]%Z = Some [290; 3; 14]%Z.
 Proof. exact ex_cf_computes. Qed.
+
+(* --- "all value names are unique", across the subgraphs of a builder tree (after repo fix 3390211: the counter
+   counts the nodes of all graphs of the tree).  For EVERY trace -- any nesting of If / Loop / Scan bodies, CastLike
+   operands, explicit and declared output names, nodes added by call_inline -- whose generated names come from
+   operator / function names made of letters: if the names the CALLER chose (`user_names`, a function of the trace:
+   graph and subgraph inputs, explicit _outputs names, declared output names of bodies, names of inlined values,
+   constant names) are pairwise distinct and none has the shape of a generated name ("v_..._<digits>"), then ALL
+   names the build defines (values at every depth, CastLike outputs, initializers) are pairwise distinct.  The
+   generated names need no hypothesis: each is made from a counter value used once in the whole tree (on the pinned
+   tree this is false: C18_names_unique_across_subgraphs_refuted).
+   Not covered: function names containing '_' or digits with default output names (the counter cannot be read back
+   from "v_f_3_0" if "f_3" may be a function name: hypothesis plain_trace). *)
+Theorem C18_names_unique_across_subgraphs_fixed : forall ins tr,
+  plain_trace tr = true -> user_okb ins tr = true ->
+  NoDup (all_defined (fst (build_state bcfg_fixed ins tr))).
+Proof. exact names_unique_across_subgraphs_fixed. Qed.
+Print Assumptions C18_names_unique_across_subgraphs_fixed.
+
+(* hence the control-flow theorem needs no hypothesis about the built names: `cf_hyps_fixedb` inspects the trace only *)
+Theorem C18_build_computes_trace_cf_fixed :
+  forall V sem truth trip of_nat of_bool lim lit_val fuel ins tr outs args r,
+  cf_hyps_fixedb ins tr = true ->
+  List.length args = List.length ins ->
+  creplay V sem truth trip of_nat of_bool lim lit_val fuel tr args outs = Some r ->
+  eval_graph V sem truth trip of_nat of_bool lim (S fuel)
+             (init_env V lit_val (b_cache (fst (build_state bcfg_fixed ins tr)))) (build bcfg_fixed ins tr outs) args = Some r.
+Proof. exact build_computes_trace_cf_fixed. Qed.
+Print Assumptions C18_build_computes_trace_cf_fixed.
+
+Example C18_names_unique_fixed_hypotheses_satisfiable : cf_hyps_fixedb ["x"; "c"] ex_cf_trace = true.
+Proof. exact ex_cf_fixed_hyps. Qed.
+
+(* the side condition is needed: an explicit output called like a generated name repeats it *)
+Example C18_user_name_of_generated_shape :
+  let tr := [COp [] "" "Add" [OVal 0; OVal 0] [] [] (ODefault 1);
+             COp [] "" "Relu" [OVal 1] [] [] (ONamed ["Add_0"])] in
+  user_okb ["x"] tr = false /\
+  nodup_strb (all_defined (fst (build_state bcfg_fixed ["x"] tr))) = false.
+Proof. exact ex_user_name_of_generated_shape. Qed.
